@@ -310,25 +310,32 @@ func (u *Unit) mergeStates(ins []edgeIn) *State {
 				res.cells[c] = v
 			}
 		}
-		for h, t := range e.st.heaps {
-			if rt, ok := res.heaps[h]; ok {
-				if rt.S != t.S {
-					res.heaps[h] = u.def(ite(e.cond, t, rt))
-				}
-			} else {
-				if init, ok := u.heapInit[h]; ok && init.S != t.S {
-					res.heaps[h] = u.def(ite(e.cond, t, init))
-				} else {
-					res.heaps[h] = t
-				}
+		// heaps: a heap one side has not looked at yet has, on that side, the version its epoch
+		// gives it (entry version, or the unknown version after the last arbitrary call)
+		var hnames []string
+		for h := range e.st.heaps {
+			hnames = append(hnames, h)
+		}
+		for h := range res.heaps {
+			if _, ok := e.st.heaps[h]; !ok {
+				hnames = append(hnames, h)
 			}
 		}
-		for h, rt := range res.heaps {
-			if _, ok := e.st.heaps[h]; !ok {
-				if init, ok := u.heapInit[h]; ok && init.S != rt.S {
-					res.heaps[h] = u.def(ite(e.cond, init, rt))
+		sort.Strings(hnames)
+		for _, h := range hnames {
+			if _, known := u.heapSort[h]; !known {
+				if t, ok := e.st.heaps[h]; ok {
+					res.heaps[h] = t
 				}
+				continue
 			}
+			t, rt := u.heapNow(e.st, h), u.heapNow(res, h)
+			if rt.S != t.S {
+				res.heaps[h] = u.def(ite(e.cond, t, rt))
+			}
+		}
+		if res.epoch != e.st.epoch {
+			res.epoch = u.sym("ep")
 		}
 		if res.alloc.S != e.st.alloc.S {
 			res.alloc = u.def(ite(e.cond, e.st.alloc, res.alloc))
